@@ -357,7 +357,14 @@ fn f32_case(rep: &mut Report, which: Formula, rng: &mut Rng, complex: bool) {
     let field = if complex { "complex_f32" } else { "real_f32" };
     let key = format!("{}/{}", which.name(), field);
     let deg = rng.below(which.exact_deg() + 1);
-    let p = Poly::gen(rng, deg, complex);
+    let mut p = Poly::gen(rng, deg, complex);
+    // the zero function (every sample exactly 0): its derivatives are 0, not NaN
+    let zero_function = rng.chance(0.04);
+    if zero_function {
+        for c in p.c.iter_mut() {
+            *c = C::new(0.0, 0.0);
+        }
+    }
     let x = match rng.below(6) {
         0 => 0.0f32,
         1 => -0.0f32,
@@ -399,12 +406,15 @@ fn f32_case(rep: &mut Report, which: Formula, rng: &mut Rng, complex: bool) {
     });
     rep.eval();
     rep.count(&format!("{}/f32_cases", key), 1);
+    if zero_function {
+        rep.count(&format!("{}/f32_cases_zero_function", key), 1);
+    }
     if x == 0.0 {
         rep.count(&format!("{}/f32_cases_at_zero", key), 1);
     }
     let (xd, hd) = (x as f64, h as f64);
     let exact = p32.deriv(m, xd);
-    let scale = EPS32 * p32.tilde(xd.abs() + 2.0 * hd) / hd.powi(m as i32);
+    let scale = (EPS32 * p32.tilde(xd.abs() + 2.0 * hd) / hd.powi(m as i32)).max(f64::MIN_POSITIVE);
     let kk = if m == 1 { K_P1 } else { K_P2 };
     let case = |got: Option<C>| {
         let mut j = J::obj().set("function", which.name()).set("field", field).set("polynomial(f32 coefficients)", p32.to_json()).set("degree", deg).set("x", xd).set("x_is_negative_zero", x == 0.0 && x.is_sign_negative()).set("h", hd).set("exact_derivative", cj(exact)).set("rounding_allowance", kk * scale);
